@@ -650,6 +650,12 @@ func (ec *EvalCtx) call(e *CExpr) Val {
 		}
 	case "$addr":
 		// address of a field: $addr(l.root)
+		if ap, ok := ec.addrOf(e.Args[0]); ok {
+			if ap.Path == "" {
+				return TV{st.encodePtr(ap), ap.Typ}
+			}
+			return ap
+		}
 		if e.Args[0].Kind == "sel" {
 			x := ec.eval(e.Args[0].Args[0])
 			if p, ok := ec.ptrOf(x); ok {
